@@ -8,15 +8,15 @@ EXACT = ("generated-input search (proptest-driven raw vectors, shrinkable, seede
 EX = "Trusted: the harness' reference implementations (refs.rs), the Q/Fp arithmetic (q.rs), and rustc monomorphising the same generic source for f32/f64 as for Q/Fp. "
 ALL = {
  "C01": dict(
-   text="Exploration. Every clause of C01 is a polynomial identity; it is evaluated exactly (no tolerance) on generated dense matrices over Q and over the prime field Fp (per-case miss probability <= degree/2^61, Schwartz-Zippel) for n=2,3,4 and all four by-value/by-reference operand forms, against a textbook triple-loop reference; an f64 sub-check repeats the products with a rounding-only tolerance on regimes an exact field cannot represent (near-identity, wide magnitudes, sparse, aliased operands). Not a proof: sampled, but an index/sign/term slip is a hard inequality on a generic input. Every ring operation is also taken through its other entry points (reference operands, +=, -=, *=, /=, %=, Sum/Product over values and references, scalar on the left in f64). transpose()/transpose_self() are checked bit for bit on tiny and nearly symmetric f64 matrices; is_one/set_one/set_zero and unsized-iterator folds are included.",
+   text="Exploration. Every clause of C01 is a polynomial identity; it is evaluated exactly (no tolerance) on generated dense matrices over Q and over the prime field Fp (per-case miss probability <= degree/2^61, Schwartz-Zippel) for n=2,3,4 and all four by-value/by-reference operand forms, against a textbook triple-loop reference; an f64 sub-check repeats the products with a rounding-only tolerance on regimes an exact field cannot represent (near-identity, wide magnitudes, sparse, aliased operands). Not a proof: sampled, but an index/sign/term slip is a hard inequality on a generic input. Every ring operation is also taken through its other entry points (reference operands, +=, -=, *=, /=, %=, Sum/Product over values and references, scalar on the left in f64). transpose()/transpose_self() are checked bit for bit on tiny and nearly symmetric f64 matrices; is_one/set_one/set_zero and unsized-iterator folds are included. Array conversions are checked as constructors.",
    note=EX+"Assumes no division by a zero scalar.",
    technique="property-based testing: exact-field differential oracle (Q, Fp) + algebraic laws", design="6/C01"),
  "C02": dict(
-   text="Exploration. determinant/invert/transpose/swap laws evaluated exactly over Q and Fp on generic matrices and on *constructed* singular (rank n-1 by column and by row combination), low-rank and tiny-determinant matrices; invert()==None is compared with the Leibniz determinant being exactly 0; swap/replace_col index pairs are enumerated completely per case; native f64/f32 matrices diag(2^a)*U with ordinary, subnormal, underflowed and huge determinants must invert exactly when determinant() != 0. Sampled search, not a proof; exact arithmetic means no tolerance can hide or invent a failure. Exactly singular float matrices (2x2, 3x3: one column an exact power-of-two multiple of another, generic inexact entries) must have determinant() == 0 and no inverse. Rotations / diagonal matrices perturbed by 1e-14..1e-4 (invert_near_special-f64) must be inverted to rounding accuracy. Ill-conditioned but exact integer matrices (illconditioned_native-*) must have determinant exactly +-1 and an exact inverse.",
+   text="Exploration. determinant/invert/transpose/swap laws evaluated exactly over Q and Fp on generic matrices and on *constructed* singular (rank n-1 by column and by row combination), low-rank and tiny-determinant matrices; invert()==None is compared with the Leibniz determinant being exactly 0; swap/replace_col index pairs are enumerated completely per case; native f64/f32 matrices diag(2^a)*U with ordinary, subnormal, underflowed and huge determinants must invert exactly when determinant() != 0. Sampled search, not a proof; exact arithmetic means no tolerance can hide or invent a failure. Exactly singular float matrices (2x2, 3x3: one column an exact power-of-two multiple of another, generic inexact entries) must have determinant() == 0 and no inverse. Rotations / diagonal matrices perturbed by 1e-14..1e-4 (invert_near_special-f64) must be inverted to rounding accuracy. Ill-conditioned but exact integer matrices (illconditioned_native-*) must have determinant exactly +-1 and an exact inverse. transpose()/transpose_self() are compared bit for bit on f64 matrices with signed zeros (transpose_native-f64).",
    note=EX+"ulps-equality degenerates to equality in Q/Fp. Memory safety of the unchecked reads is only covered by the ASan fuzz build in the thorough tier.",
    technique="property-based testing: exact-field reference model (Leibniz determinant), constructed singular classes, exhaustive index enumeration", design="6/C02"),
  "C03": dict(
-   text="Exploration. Component-wise operators, the ElementWise families (vector and scalar right-hand sides, value and assign forms), dot/cross/perp-dot identities checked with == over Q, Fp and overflow-free i64/i32 operands for dimensions 1-4. Operators are also taken by reference and through Sum; is_zero is evaluated on vectors that are zero but for one component, including components whose square overflows the integer type or underflows in f64.",
+   text="Exploration. Component-wise operators, the ElementWise families (vector and scalar right-hand sides, value and assign forms), dot/cross/perp-dot identities checked with == over Q, Fp and overflow-free i64/i32 operands for dimensions 1-4. Operators are also taken by reference and through Sum; is_zero is evaluated on vectors that are zero but for one component, including components whose square overflows the integer type or underflows in f64. Integer operands over the whole range: where perp_dot/cross/dot/magnitude2/sum/product have a value (in every order of evaluation) the library must return it without panicking.",
    note=EX+"Integer operands are constructed inside the no-overflow range; divisors non-zero.",
    technique="property-based testing: per-component reference + algebraic identities over exact fields and integers", design="6/C03"),
  "C04": dict(
@@ -24,19 +24,19 @@ ALL = {
    note=EX,
    technique="property-based testing: exact-field differential oracle + algebraic laws", design="6/C04"),
  "C05": dict(
-   text="Exploration. The four rotation representations are compared exactly over Q/Fp on exactly unit quaternions (action on a vector, element tables, orthonormality, det=+1, composition); matrix->quaternion is decided exactly in Q (all internal square roots are rational) and within 1e-12 in f64, with all four branches required to be reached, the trace=0 hand-over and near-identity rotations targeted. Composition is also written as Product over values and references (three non-commuting factors) for Basis3, Quaternion, Matrix3 and Matrix4, and through Into conversions. The rotation is applied through every entry point (transform_vector/transform_point, rotate_vector/rotate_point, reference products). Composition also through Transform::concat/concat_self of Matrix3 (2-D and 3-D impl) and Matrix4.",
+   text="Exploration. The four rotation representations are compared exactly over Q/Fp on exactly unit quaternions (action on a vector, element tables, orthonormality, det=+1, composition); matrix->quaternion is decided exactly in Q (all internal square roots are rational) and within 1e-12 in f64, with all four branches required to be reached, the trace=0 hand-over and near-identity rotations targeted. Composition is also written as Product over values and references (three non-commuting factors) for Basis3, Quaternion, Matrix3 and Matrix4, and through Into conversions. The rotation is applied through every entry point (transform_vector/transform_point, rotate_vector/rotate_point, reference products). Composition also through Transform::concat/concat_self of Matrix3 (2-D and 3-D impl) and Matrix4. four_reps-f64 applies all representations through eleven entry points to vectors in general position and (nearly) along the rotation axis.",
    note=EX+"Branch classes are recomputed from the input with the documented conditions.",
    technique="property-based testing: exact round-trip + differential oracle with branch-coverage classes", design="6/C05"),
  "C06": dict(
-   text="Exploration. from_axis_angle / from_angle_x,y,z / 2-D from_angle for all six representations against Rodrigues' formula: exactly in Q using named angles with rational (sin,cos) and half-angle pairs and rational unit axes, and within 1e-12 in f64 with libm sin/cos for Rad and Deg inputs (angles in +-20 rad, tiny angles, angles next to multiples of a quarter turn); angle additivity, inverse and rotate_point laws. f64 angles include many-turn angles up to 1e15 rad, exact quarter-turn multiples and tiny angles for the 2-D and 3-D constructors. The f64 tier applies the rotation through all ten application entry points.",
+   text="Exploration. from_axis_angle / from_angle_x,y,z / 2-D from_angle for all six representations against Rodrigues' formula: exactly in Q using named angles with rational (sin,cos) and half-angle pairs and rational unit axes, and within 1e-12 in f64 with libm sin/cos for Rad and Deg inputs (angles in +-20 rad, tiny angles, angles next to multiples of a quarter turn); angle additivity, inverse and rotate_point laws. f64 angles include many-turn angles up to 1e15 rad, exact quarter-turn multiples and tiny angles for the 2-D and 3-D constructors. The f64 tier applies the rotation through all ten application entry points. Any finite angle, up to Deg/Rad of magnitude f64::MAX, must give a finite orthonormal result.",
    note=EX+"Non-unit axes are outside the statement. Named-angle registry: Q::sin_cos looks the angle's name up.",
    technique="property-based testing: exact rational-trigonometry oracle (Rodrigues) + f64 libm differential", design="6/C06"),
  "C07": dict(
-   text="Exploration. Euler->rotation for Matrix3/Matrix4/Basis3/Quaternion against Rx*Ry*Rz exactly in Q (named angles) and within 1e-12 in f64 (Rad and Deg); quaternion->Euler on f64 unit quaternions with generators aimed at the gimbal cone and its boundary sin y = +-0.998(1+-delta), checking ranges, exact rebuild outside the cone, x=0/y=+-pi/2/0.13 bound inside. Exactly structured quaternions (pure rotations about one coordinate axis over two full turns, basis quaternions, one vanishing component) are a required class. f64 Euler angles include many-turn angles up to 1e12 rad, exact quarter-turn multiples and tiny angles.",
+   text="Exploration. Euler->rotation for Matrix3/Matrix4/Basis3/Quaternion against Rx*Ry*Rz exactly in Q (named angles) and within 1e-12 in f64 (Rad and Deg); quaternion->Euler on f64 unit quaternions with generators aimed at the gimbal cone and its boundary sin y = +-0.998(1+-delta), checking ranges, exact rebuild outside the cone, x=0/y=+-pi/2/0.13 bound inside. Exactly structured quaternions (pure rotations about one coordinate axis over two full turns, basis quaternions, one vanishing component) are a required class. f64 Euler angles include many-turn angles up to 1e12 rad, exact quarter-turn multiples and tiny angles. f64 Euler angles include neighbourhoods (1e-12..1e-3) of quarter-turn multiples.",
    note=EX+"The 0.998/0.13 constants are f64-calibrated; a 1e-9 guard band accepts either obligation on the boundary.",
    technique="property-based testing: exact composition oracle + f64 round-trip with boundary-targeted generators", design="6/C07"),
  "C12": dict(
-   text="Exploration. Affine-space laws, component-wise operators and ElementWise families of Point1-3, midpoint, centroid (1-8 points) and homogeneous coordinates, with == over Q, Fp and i64; an f64 sub-check repeats the clauses with rounding-only tolerances where an exact field cannot look (magnitudes 1e+-140, homogeneous factors over 1e+-150 and within 8 ulps of 1, lists of up to 520 points).",
+   text="Exploration. Affine-space laws, component-wise operators and ElementWise families of Point1-3, midpoint, centroid (1-8 points) and homogeneous coordinates, with == over Q, Fp and i64; an f64 sub-check repeats the clauses with rounding-only tolerances where an exact field cannot look (magnitudes 1e+-140, homogeneous factors over 1e+-150 and within 8 ulps of 1, lists of up to 520 points). The point-vector dot is checked at the top of the float range.",
    note=EX,
    technique="property-based testing: per-component reference + affine laws over exact fields", design="6/C12"),
  "C13": dict(
@@ -48,7 +48,7 @@ ALL = {
    note=EX+"Unit inputs for between_vectors; the 1e-7 / 1e-4 allowances of the statement are applied as stated, with a conditioning term 32 eps/theta* between the allowance and 1e-9.",
    technique="property-based testing: validity-predicate oracle with degenerate-class generators (f64) + exact rational geometry (Q)", design="6/C15"),
  "C11": dict(
-   text="Exploration. Exact: magnitude2/distance2/project_on identities over Q and Fp, and magnitude/normalize/normalize_to/distance on vectors of *rational length* (rational unit vector times a rational) so that every internal sqrt is exact, for Vector1-4, Quaternion and Point1-3. f64: the same clauses with 4-8 eps tolerances and the angle clauses (|u||v|cos(angle)=u.v within 1e-12, range, symmetry; 2-D sign pinned by rotating u) on generic, nearly (anti)parallel, exactly (anti)parallel and nearly equal pairs. A quarter of the pairs carry exact structure: the same components vanish in both vectors (either sign of zero) or both lie on coordinate axes. project_on is checked in f64 with operands at independent scales 1e-100..1e100; a sixth of the pairs have |u| = 1 only nearly.",
+   text="Exploration. Exact: magnitude2/distance2/project_on identities over Q and Fp, and magnitude/normalize/normalize_to/distance on vectors of *rational length* (rational unit vector times a rational) so that every internal sqrt is exact, for Vector1-4, Quaternion and Point1-3. f64: the same clauses with 4-8 eps tolerances and the angle clauses (|u||v|cos(angle)=u.v within 1e-12, range, symmetry; 2-D sign pinned by rotating u) on generic, nearly (anti)parallel, exactly (anti)parallel and nearly equal pairs. A quarter of the pairs carry exact structure: the same components vanish in both vectors (either sign of zero) or both lie on coordinate axes. project_on is checked in f64 with operands at independent scales 1e-100..1e100; a sixth of the pairs have |u| = 1 only nearly. Pairs include vectors whose components all have the same magnitude.",
    note=EX+"f64 components log-uniform in 1e-3..1e3 (no over/underflow of squares); non-zero lengths by construction.",
    technique="property-based testing: exact rational-length oracle + f64 validity predicates on conditioned pair classes", design="6/C11"),
  "C14": dict(
@@ -56,15 +56,15 @@ ALL = {
    note=EX+"The arc is measured as 2 atan2(|a-b'|,|a+b'|); the frame used for the in-plane test is known to eps/Omega, which is added to the tolerance; either target accepted when |a.b| <= 1e-12.",
    technique="property-based testing: exact-field oracle (lerp) + validity predicate with threshold-targeted generators (nlerp/slerp)", design="6/C14"),
  "C08": dict(
-   text="Exploration. One generic law-checker (composition on points and vectors, concat_self, one(), displacement independence, inverse presence and undoing, inverse_transform_vector) is instantiated for all five Transform impls over Q and Fp with exactly unit rotations, zero/negative scales, singular and fully projective matrices; Decomposed-specific clauses (s*t, explicit formulas, Matrix4/Matrix3::from commuting with apply/compose/invert/one) exactly; the |scale|>1e-6 threshold clause on f64 with scales 0, 5e-324..1e-6, just above 1e-6, ordinary; matrix impls in f64 must invert whenever the determinant is non-zero (determinants down to 1e-150) and M(D^-1) = M(D)^-1. Affine matrices times a scalar (bottom row (0,..,0,k)) are a required class for Matrix4 and for Matrix3 as a 2-D transform (this class exposed the defect fixed in 5996e8e). One's provided methods (set_one, is_one) and one() as neutral element of every composition form are part of the laws.",
+   text="Exploration. One generic law-checker (composition on points and vectors, concat_self, one(), displacement independence, inverse presence and undoing, inverse_transform_vector) is instantiated for all five Transform impls over Q and Fp with exactly unit rotations, zero/negative scales, singular and fully projective matrices; Decomposed-specific clauses (s*t, explicit formulas, Matrix4/Matrix3::from commuting with apply/compose/invert/one) exactly; the |scale|>1e-6 threshold clause on f64 with scales 0, 5e-324..1e-6, just above 1e-6, ordinary; matrix impls in f64 must invert whenever the determinant is non-zero (determinants down to 1e-150) and M(D^-1) = M(D)^-1. Affine matrices times a scalar (bottom row (0,..,0,k)) are a required class for Matrix4 and for Matrix3 as a 2-D transform (this class exposed the defect fixed in 5996e8e). One's provided methods (set_one, is_one) and one() as neutral element of every composition form are part of the laws. matrix_compose-f64 compares concat/concat_self/* entry by entry with a right factor that is (nearly) the identity.",
    note=EX+"Vector clauses for matrix impls are asserted on affine matrices only; for 0<|scale|<=1e-6 either None or a correct inverse is accepted; f64 tolerances are eps*(|p|+|disp|/|scale|).",
    technique="property-based testing: generic law checker over all Transform implementations, exact fields + f64 threshold classes", design="6/C08"),
  "C09": dict(
-   text="Exploration. Every look_to/look_at entry point (Matrix4 rh/lh, Matrix3 rh/lh, Quaternion, Basis3, Transform impls of Matrix4, Matrix3, Decomposed<_,Quaternion>, Decomposed<_,Basis3>, and the 2-D Matrix2/Basis2 look_at / look_at_stable) is checked against the statement's predicate (rigid, det +1, eye to origin, d to -z / +z, up into x=0,y>=0, mutual agreement) exactly in Q on rational frames for which every normalisation and the matrix->quaternion step are rational, and within a conditioning-scaled, scale-free tolerance in f64 on arbitrary eye/dir/up with lengths over 1e-30..1e30.",
+   text="Exploration. Every look_to/look_at entry point (Matrix4 rh/lh, Matrix3 rh/lh, Quaternion, Basis3, Transform impls of Matrix4, Matrix3, Decomposed<_,Quaternion>, Decomposed<_,Basis3>, and the 2-D Matrix2/Basis2 look_at / look_at_stable) is checked against the statement's predicate (rigid, det +1, eye to origin, d to -z / +z, up into x=0,y>=0, mutual agreement) exactly in Q on rational frames for which every normalisation and the matrix->quaternion step are rational, and within a conditioning-scaled, scale-free tolerance in f64 on arbitrary eye/dir/up with lengths over 1e-30..1e30. look_at == look_to(center - eye) as values; eye-to-origin measured relative to |eye|, with eyes down to 1e-300.",
    note=EX+"General position (up not parallel to dir; f64: >= 0.05 rad). The deprecated Transform::look_at is not claimed.",
    technique="property-based testing: validity-predicate oracle on exact rational frames (Q) + toleranced f64 search", design="6/C09"),
  "C10": dict(
-   text="Exploration. ortho/frustum/perspective/planar (free functions and struct conversions) against the mapping stated in the property: corner images, affinity, w=-z, perspective == frustum of the symmetric window (independent glFrustum table), to_perspective fields, planar window/near/far/focal point; exactly in Q (Fp for ortho) with named angles for fovy, and within 1e-11 (conditioning-scaled) in f64 including Deg input, fovy=0 and negative fovy for planar. Rejection: a valid tuple with exactly one of the 15 preconditions broken, at the boundary and beyond, must panic (catch_unwind) and the unbroken tuple must not; all 15 reasons are required classes. Scale covariance: every tuple is also taken with its lengths multiplied by 2^k (|k| <= 300; >= -30 for perspective/planar) and the matrix must be the scaled matrix to 16 ulps per entry; fovy is drawn over the whole of (0, pi) down to 1e-9 rad from either end.",
+   text="Exploration. ortho/frustum/perspective/planar (free functions and struct conversions) against the mapping stated in the property: corner images, affinity, w=-z, perspective == frustum of the symmetric window (independent glFrustum table), to_perspective fields, planar window/near/far/focal point; exactly in Q (Fp for ortho) with named angles for fovy, and within 1e-11 (conditioning-scaled) in f64 including Deg input, fovy=0 and negative fovy for planar. Rejection: a valid tuple with exactly one of the 15 preconditions broken, at the boundary and beyond, must panic (catch_unwind) and the unbroken tuple must not; all 15 reasons are required classes. Scale covariance: every tuple is also taken with its lengths multiplied by 2^k (|k| <= 300; >= -30 for perspective/planar) and the matrix must be the scaled matrix to 16 ulps per entry; fovy is drawn over the whole of (0, pi) down to 1e-9 rad from either end. Valid tuples include near/far planes a few ulps apart.",
    note=EX+"Valid domain excludes l==r, b==t, n==f and height==0 (division by zero), and for perspective/planar planes closer than machine epsilon in absolute terms (the constructors' own 'too close' assertion).",
    technique="property-based testing: mapping-predicate oracle (exact Q + f64) and single-fault rejection enumeration", design="6/C10"),
  "C16": dict(
@@ -84,7 +84,7 @@ ALL = {
    note="Trusted: num_traits' scalar NumCast. All NaNs are identified when comparing.",
    technique="property-based testing: differential oracle against per-component scalar NumCast over the full type-pair matrix", design="6/C19"),
  "C20": dict(
-   text="Exploration. Every Serialize/Deserialize type (24 shapes x f32/f64, plus integer vectors/points) is round-tripped through serde_json::Value and through JSON text (float_roundtrip) with components from raw finite bit patterns (-0.0, subnormals, MIN_POSITIVE, MAX over-represented); the serialized Value must equal the documented field structure built by the harness; results are compared bit for bit with per-component scalar round trips through the same carrier. Decomposed: all 6 field orders must deserialise to the same value; each single omission (both remaining orders) and an unknown field at each of 4 positions must be Err (never Ok, never a panic). Serialized trees and texts are compared with the expected structure bit for bit (-0.0).",
+   text="Exploration. Every Serialize/Deserialize type (24 shapes x f32/f64, plus integer vectors/points) is round-tripped through serde_json::Value and through JSON text (float_roundtrip) with components from raw finite bit patterns (-0.0, subnormals, MIN_POSITIVE, MAX over-represented); the serialized Value must equal the documented field structure built by the harness; results are compared bit for bit with per-component scalar round trips through the same carrier. Decomposed: all 6 field orders must deserialise to the same value; each single omission (both remaining orders) and an unknown field at each of 4 positions must be Err (never Ok, never a panic). Serialized trees and texts are compared with the expected structure bit for bit (-0.0). The round trip also goes through a non-human-readable serde format.",
    note="Trusted: serde / serde_json scalar impls. Finite values only. Field-order permutations are fed as text because serde_json's Value map is key-ordered.",
    technique="property-based testing: round-trip oracle over two carriers + structural reference + enumerated field-order/omission/unknown-field cases", design="6/C20"),
 }
